@@ -10,6 +10,7 @@ import (
 	"time"
 
 	"github.com/yandex/mysync/internal/config"
+	"github.com/yandex/mysync/verif/fakezk"
 	"github.com/yandex/mysync/verif/world"
 )
 
@@ -33,6 +34,7 @@ type c05Spec struct {
 	Handover bool   `json:"manager_handover"`
 	Rejected bool   `json:"manual_request_rejected_after_the_last_failover"` // last_rejected_switch holds a manual request initiated after the last (automatic) switch
 	Expect   string `json:"closed_gate_by_construction"`
+	Raced    bool   `json:"operator_request_lands_during_the_approval"` // an operator's request is created between the manager's look at the switch key and its own filing
 }
 
 var c05Masters = []string{"mysql_crash", "host_dead", "flapping", "ro_fs", "crash_recovered", "unreachable_from_manager", "zk_only_loss", "suspicious_between_bad"}
@@ -70,6 +72,7 @@ func c05Gen(seed int64, idx int) c05Spec {
 	if sp.Master == "unreachable_from_manager" || sp.Master == "zk_only_loss" {
 		sp.Expect = "suspicious-or-still-replicating"
 	}
+	sp.Raced = sp.Expect == "all-open" && r.Intn(3) == 0
 	return sp
 }
 
@@ -99,6 +102,7 @@ type c05Monitor struct {
 	streak  map[string]time.Duration // instance -> time of the earliest bad read of the current streak (-1 = none)
 	Filed   int
 	Suspect int
+	curReq  string // initiated_by@initiated_at of the request in the switch key ("" = none)
 }
 
 func newC05Monitor(sc *Scen, sp c05Spec) *c05Monitor {
@@ -149,6 +153,29 @@ func newC05Monitor(sc *Scen, sp c05Spec) *c05Monitor {
 		if method == "Create" && path == "switch" && strings.Contains(arg, `"cause":"auto"`) && res == "ok" {
 			it.created = true
 			m.judgeFiling(inst, it)
+		}
+	})
+	// "never while another switch request is active": the key holds at most one request, and a daemon never replaces
+	// the request of somebody else with its own automatic one
+	s.OnZK(func(r fakezk.Rec) {
+		if strings.TrimPrefix(r.Path, NS+"/") != "switch" {
+			return
+		}
+		m.mu.Lock()
+		defer m.mu.Unlock()
+		switch r.Op {
+		case "delete":
+			m.curReq = ""
+		case "create", "set":
+			var rec swRec
+			if json.Unmarshal([]byte(r.Data), &rec) != nil {
+				return
+			}
+			id := rec.id()
+			if m.curReq != "" && m.curReq != id && isDaemon(s, r.Client) {
+				m.sc.Violate("C05", "request-written-over-an-active-request", fmt.Sprintf("%s wrote its request %s (cause %s) over the active request %s", r.Client, id, rec.Cause, m.curReq))
+			}
+			m.curReq = id
 		}
 	})
 	s.W.Lock()
@@ -394,6 +421,20 @@ func c05Run(u *Unit) {
 		if sp.List == "master_plus_one" && sp.N > 2 {
 			b, _ := json.Marshal([]string{hosts[1], master})
 			s.ZK.Put("setup", NS+"/active_nodes", string(b))
+		}
+		if sp.Raced {
+			var once sync.Once
+			s.OnDCS(func(inst, method, path, arg, res string) {
+				// approveFailover's cool-down read comes after the manager found no request in the switch key and
+				// right before it files its own
+				if method == "Get" && path == "last_switch" {
+					once.Do(func() {
+						if fileSwitch(sc, "", hosts[1], "manual", "switchover", "operator") {
+							sc.Cover("operator-request-raced-the-filing")
+						}
+					})
+				}
+			})
 		}
 		s.Start()
 		time.Sleep(13 * time.Second)
